@@ -491,10 +491,11 @@ def c04(tier):
 
 def c01(tier):
     levels = [0, 1, 2, 3, 4, 7]
-    per = {"E": 6000, "rnd": 3000, "S": 6000, "R": 300, "M": 2000, "N": 500, "L": 1500} if tier == "quick" else \
-          {"E": 60000, "rnd": 60000, "S": 150000, "R": 400, "M": 40000, "N": 10000, "L": 40000}
+    per = {"E": 6000, "rnd": 3000, "S": 6000, "R": 300, "M": 2000, "N": 500, "L": 1500, "G": 1500} \
+        if tier == "quick" else \
+        {"E": 60000, "rnd": 60000, "S": 150000, "R": 400, "M": 40000, "N": 10000, "L": 40000, "G": 30000}
     return run_equivalence("C01", tier, lambda c: [{"backend": "irint", "level": l} for l in levels],
-                           ["E", "rnd", "S", "R", "M", "N", "L"], per,
+                           ["E", "rnd", "S", "R", "M", "N", "L", "G"], per,
                            adjudicate_max=2500 if tier == "quick" else 80000)
 
 
